@@ -284,15 +284,16 @@ theorem removeAll_sublist (evs : List SEv) (live : List SEv) : (removeAll live e
   | nil => exact List.Sublist.refl _
   | cons x evs ih => exact (ih _).trans (removeId_sublist _ _)
 
-theorem vanishAuthored_sublist (live : List SEv) (pk : Bytes) : (vanishAuthored live pk).Sublist live := by
-  unfold vanishAuthored; split
-  · exact removeAll_sublist _ _
-  · exact List.Sublist.refl _
+theorem removeFound_sublist (live : List SEv) (r : FindReply) : (removeFound live r).Sublist live := by
+  cases r with
+  | ok evs red => exact removeAll_sublist _ _
+  | scraper => exact List.Sublist.refl _
 
-theorem vanishWraps_sublist (live : List SEv) (pk : Bytes) : (vanishWraps live pk).Sublist live := by
-  unfold vanishWraps; split
-  · exact removeAll_sublist _ _
-  · exact List.Sublist.refl _
+theorem vanishAuthored_sublist (live : List SEv) (pk : Bytes) : (vanishAuthored live pk).Sublist live :=
+  removeFound_sublist _ _
+
+theorem vanishWraps_sublist (live : List SEv) (pk : Bytes) : (vanishWraps live pk).Sublist live :=
+  removeFound_sublist _ _
 
 theorem vanish_sublist (s : Store) (pk : Bytes) : (vanish s pk).db.live.Sublist s.db.live :=
   (vanishWraps_sublist _ _).trans (vanishAuthored_sublist _ _)
